@@ -250,6 +250,11 @@ def _convert_library_call(node: ast.Call) -> libsbml.ASTNode:
 
 
 def _convert_call(node: ast.Call) -> libsbml.ASTNode:
+    if len(node.keywords) > 0:
+        # MathML has no keyword arguments, dropping them changes the meaning
+        msg = f"Keyword arguments: {ast.unparse(node)}"
+        raise NotImplementedError(msg)
+
     func = node.func
     if isinstance(func, ast.Name):
         return _convert_direct_call(node)
